@@ -48,7 +48,7 @@ def mc_constants(ctx, nb=3, flags='{0, 1, 2, 3, 4, 9}', ys=None, qs=None, mod=No
 class World(object):
     """one real package + fitter per configuration (grid, K pattern, A_V range)"""
 
-    def __init__(self, root, names, grid, K, ulo, uhi, zero_cells=()):
+    def __init__(self, root, names, grid, K, ulo, uhi, zero_cells=(), kdiv=1.0):
         self.dir = tempfile.mkdtemp(dir=root)
         nb = len(K)
         self.names = names
@@ -57,8 +57,10 @@ class World(object):
         h = zlib.crc32(repr((names, grid, K, ulo, uhi)).encode())
         self.version = 2 if (h // 7) % 3 == 0 else 1          # a third of the worlds are cube-format packages
         fw.build_indep_package(self.dir, names, grid, self.filts, self.wavs, version=self.version, zero_cells=zero_cells)
-        self.law = fw.make_extinction(K, self.wavs, variety=h)
-        self.fitter = fw.make_fitter(self.dir, self.filts, self.law, ulo, uhi, use_memmap=False)
+        # kdiv: every extinction coefficient divided by it and the A_V range multiplied (spec theorem ScaleK): fitted A_V = kdiv x spec
+        self.kdiv = kdiv
+        self.law = fw.make_extinction(K, self.wavs, variety=h, vfactor=kdiv)
+        self.fitter = fw.make_fitter(self.dir, self.filts, self.law, ulo * kdiv, uhi * kdiv, use_memmap=False)
 
     def fit(self, source):
         return self.fitter.fit(source)
@@ -87,7 +89,9 @@ def replay_groups(groups, root, mode, seed):
     for key, behs in groups:
         b0 = behs[0]
         names = names_for(len(b0['grid']))
-        w = World(root, names, b0['grid'], b0['K'], b0['ulo'], b0['uhi'])
+        # C01: a third of the worlds have coefficients 2^13 times smaller (tiny but unequal, as for far-infrared filters)
+        kdiv = 8192.0 if (mode == 'C01' and (key[0] + key[1] + key[2] + seed) % 3 == 0) else 1.0
+        w = World(root, names, b0['grid'], b0['K'], b0['ulo'], b0['uhi'], kdiv=kdiv)
         try:
             for b in behs:
                 replay_one(col, w, b, names, mode, seed)
@@ -191,6 +195,8 @@ def replay_one(col, w, b, names, mode, seed):
         if sing:
             return
         obs = fw.project_info(info)
+        if w.kdiv != 1.0:
+            obs['av'] = [a / w.kdiv for a in obs['av']]
         bad = fw.compare_fit(obs, names, b['rows'], check_rank=(mode == 'C04'), check_pred=(mode == 'C04'))
         if bad:
             col.violation('%s:fit' % mode, '; '.join(bad[:6]),
@@ -424,7 +430,7 @@ def four_band(ctx, name, invariants, cfgmod_quick=5):
 
 
 def run_C01(ctx):
-    res = run_mc(ctx, 'c01.cfg', mc_constants(ctx), ['KKTInv', 'BeatsInv', 'ChiIsMinPlusPenalties', 'EmitInv'])
+    res = run_mc(ctx, 'c01.cfg', mc_constants(ctx), ['KKTInv', 'BeatsInv', 'ChiIsMinPlusPenalties', 'ScaleK', 'EmitInv'])
     em = res['emitted'] + four_band(ctx, 'c01_n4.cfg', ['KKTInv', 'ChiIsMinPlusPenalties', 'EmitInv'])
     if not em:
         raise MachineryError('no behaviours emitted')
